@@ -154,7 +154,7 @@ func c13Pick(items []Object, idx []int) []Object {
 //verif:encoding int
 //verif:expect called
 func VerifC13GetIndices() {
-	n := verifChoice("n", verifBound(5, 7))
+	n := verifChoice("n", verifBound(4, 7))
 	a, b, k := c13Bound("start", 2), c13Bound("stop", 2), c13Bound("step", 2)
 	start, _, step, slicelength, err := NewSlice(a.obj, b.obj, k.obj).GetIndices(n)
 	verifReach("called")
@@ -174,7 +174,7 @@ func VerifC13GetIndices() {
 // list
 
 func c13GetSlice(mk func(items []Object) Object, unpack func(o Object) ([]Object, bool), kinds int) {
-	n := verifChoice("n", verifBound(5, 7))
+	n := verifChoice("n", verifBound(4, 7))
 	items := c13Items(n, 101)
 	seq := mk(items)
 	a, b, k := c13Bound("start", kinds), c13Bound("stop", kinds), c13Bound("step", kinds)
@@ -225,10 +225,11 @@ func VerifC13TupleGetSlice() { c13GetSlice(c13MkTuple, c13UnTuple, 2) }
 //verif:property C13
 //verif:encoding int
 //verif:expect called
+//verif:maxpaths 6000 60000
 func VerifC13ListGetSliceBig() { c13GetSlice(c13MkList, c13UnList, 3) }
 
 func c13GetIndex(mk func(items []Object) Object, kinds int) {
-	n := verifChoice("n", verifBound(5, 7))
+	n := verifChoice("n", verifBound(4, 7))
 	items := c13Items(n, 101)
 	seq := mk(items)
 	i := c13Bound("i", kinds)
@@ -260,7 +261,7 @@ func VerifC13TupleGetIndex() { c13GetIndex(c13MkTuple, 3) }
 //verif:encoding int
 //verif:expect called
 func VerifC13ListSetIndex() {
-	n := verifChoice("n", verifBound(5, 7))
+	n := verifChoice("n", verifBound(4, 7))
 	items := c13Items(n, 101)
 	l := NewListFromItems(items)
 	i := c13Bound("i", 1)
@@ -282,7 +283,7 @@ func VerifC13ListSetIndex() {
 //verif:encoding int
 //verif:expect called
 func VerifC13ListDelIndex() {
-	n := verifChoice("n", verifBound(5, 7))
+	n := verifChoice("n", verifBound(4, 7))
 	items := c13Items(n, 101)
 	l := NewListFromItems(items)
 	i := c13Bound("i", 1)
@@ -303,7 +304,7 @@ func VerifC13ListDelIndex() {
 //verif:encoding int
 //verif:expect called
 func VerifC13ListSetSlice() {
-	n := verifChoice("n", verifBound(4, 6))
+	n := verifChoice("n", verifBound(3, 5))
 	m := verifChoice("m", verifBound(3, 4))
 	items := c13Items(n, 101)
 	vals := c13Items(m, 201)
@@ -354,7 +355,7 @@ func VerifC13ListSetSlice() {
 //verif:encoding int
 //verif:expect called
 func VerifC13ListDelSlice() {
-	n := verifChoice("n", verifBound(5, 7))
+	n := verifChoice("n", verifBound(4, 7))
 	items := c13Items(n, 101)
 	l := NewListFromItems(items)
 	a, b, k := c13Bound("start", 2), c13Bound("stop", 2), c13Bound("step", 2)
@@ -454,3 +455,5 @@ func VerifC13ListRepeatR() { c13Repeat(c13MkList, c13UnList, true) }
 //verif:encoding int
 //verif:expect called
 func VerifC13TupleRepeat() { c13Repeat(c13MkTuple, c13UnTuple, false) }
+
+func bigOf(v int64) *big.Int { return big.NewInt(v) }
